@@ -81,6 +81,31 @@ def make_callable(rec, kind, unsafe, alters, forbidden):
     if kind == "partial":
         p = functools.partial(rec.function(tag), 1)
         return rec.mark(p, unsafe, alters, forbidden)
+    if kind == "partial-of-partial-outer-marked":
+        # markers on the OUTER wrapper object of a chain of wrappers
+        p = functools.partial(functools.partial(rec.function(tag), 1), k2=2)
+        return rec.mark(p, unsafe, alters, forbidden)
+    if kind == "partial-subclass-call-marked":
+        # a functools.partial subclass whose __call__ carries the markers on the class
+        class Action(functools.partial):
+            def __call__(self, *a, **k):
+                return super().__call__(*a, **k)
+        rec.mark(Action.__call__, unsafe, alters, forbidden)
+        return Action(rec.function(tag), 1)
+    if kind == "proxy-marked-itself":
+        # a forwarding proxy that carries the markers ITSELF (the wrapped function is unmarked)
+        class MarkedProxy:
+            def __init__(self, f):
+                self._f = f
+
+            def __call__(self, *a, **k):
+                return self._f(*a, **k)
+
+            def __getattr__(self, name):
+                if name in ("unsafe_callable", "alters_data", "forbidden"):
+                    raise AttributeError(name)
+                return getattr(self._f, name)
+        return rec.mark(MarkedProxy(rec.function(tag)), unsafe, alters, forbidden)
     if kind == "instance-call-marked":
         # the markers sit on the class's __call__ method, not on the instance
         class CM:
@@ -232,22 +257,24 @@ def spec_rejected(pol, unsafe, alters, forbidden):
 def k_rt_gate(ctx, envs):
     from jinja2.exceptions import SecurityError
     cases = []
-    for kind, unsafe, alters, forbidden, pol in itertools.product(
+    for kind, unsafe, alters, forbidden, pol, cls in itertools.product(
             ("function", "lambda", "method", "instance", "class", "partial", "instance-call-marked", "partial-of-marked",
              "pass_context", "pass_environment", "pass_eval_context", "coroutine-function", "generator-function", "classmethod",
              "staticmethod", "truthy-marker-values", "falsy-marker-values", "proxy-forwarding-getattr", "instance-level-call",
-             "repr-raises", "macro-object"),
-            (0, 1), (0, 1), (0, 1), ("default", "overridden")):
-        cases.append((kind, bool(unsafe), bool(alters), bool(forbidden), pol))
+             "repr-raises", "macro-object", "partial-of-partial-outer-marked", "partial-subclass-call-marked",
+             "proxy-marked-itself"),
+            (0, 1), (0, 1), (0, 1), ("default", "overridden"), ("", "immutable")):
+        # every case on BOTH environment classes (the immutable class has its own is_safe_callable)
+        cases.append((kind, bool(unsafe), bool(alters), bool(forbidden), pol, cls))
     lines = []
-    for kind, u, a, f, pol in cases:
+    for kind, u, a, f, pol, cls in cases:
         polarg = "default" if pol == "default" else ("0" if f else "1")
         if kind == "falsy-marker-values":
             u = a = f = False
             polarg = "default" if pol == "default" else "1"
-        if pol == "overridden" and kind in ("instance-call-marked", "partial-of-marked", "instance-level-call"):
+        if pol == "overridden" and kind in ("instance-call-marked", "partial-of-marked", "instance-level-call", "partial-subclass-call-marked"):
             polarg = "1"          # the example override looks at the object itself, which carries no marker
-        if kind == "instance-call-marked":
+        if kind in ("instance-call-marked", "partial-subclass-call-marked"):
             lines.append(f"gate 0 0 0 {polarg} {int(u)} {int(a)}")               # markers on type(obj).__call__
         elif kind == "instance-level-call":
             lines.append(f"gate 0 0 0 {polarg} 0 0 {int(u)} {int(a)}")           # markers on the instance's own __call__ attribute
@@ -255,8 +282,8 @@ def k_rt_gate(ctx, envs):
             # functools.partial of a marked function is seen through by the default predicate (6689262)
             lines.append(f"gate {int(u)} {int(a)} 0 {polarg}")
     out = ctx.driver("sbx", lines)
-    for gi, ((kind, u, a, f, pol), model) in enumerate(zip(cases, out)):
-        env = envs[(pol, "sync") if gi % 2 == 0 else (pol, "sync", "immutable")][0]    # both environment classes
+    for gi, ((kind, u, a, f, pol, cls), model) in enumerate(zip(cases, out)):
+        env = envs[(pol, "sync") if cls == "" else (pol, "sync", cls)][0]
         rec = Rec()
         try:
             obj = make_callable(rec, kind, u, a, f)
@@ -273,20 +300,20 @@ def k_rt_gate(ctx, envs):
         except Exception as e:  # noqa: BLE001
             outcome = "error:" + type(e).__name__
         real = ("check:1 invoke" if rec.ran else "check:0") + " | " + outcome
-        case = {"kind": "gate", "callable": kind, "unsafe_callable": u, "alters_data": a, "forbidden": f, "policy": pol}
+        case = {"kind": "gate", "callable": kind, "unsafe_callable": u, "alters_data": a, "forbidden": f, "policy": pol, "class": cls}
         rejected = spec_rejected(pol, u, a, f)
         if kind == "falsy-marker-values":
             rejected = False          # a falsy marker value is no marker
         if kind in ("generator-function", "coroutine-function"):
             # the function itself is what the template calls; its body runs on iteration / when awaited only
             real = real.replace("check:0 | value", "check:1 invoke | value") if outcome == "value" else real
-        if pol == "overridden" and kind in ("instance-call-marked", "partial-of-marked", "instance-level-call"):
+        if pol == "overridden" and kind in ("instance-call-marked", "partial-of-marked", "instance-level-call", "partial-subclass-call-marked"):
             rejected = False      # the example override looks at the object itself only
-        ctx.case(sample=case if rejected and kind == "method" else None, key=("gate", kind, u, a, f, pol) if rejected else None)
+        ctx.case(sample=case if rejected and kind == "method" else None, key=("gate", kind, u, a, f, pol, cls) if rejected else None)
         ctx.count("k_rt_gate")
         if rejected and rec.ran:
-            shared.reject_once(ctx, case, f"SandboxedEnvironment.call ran a {kind} the {pol} predicate rejects",
-                               f"C18:gate:{kind}:{pol}")
+            shared.reject_once(ctx, case, f"{'Immutable' if cls else ''}SandboxedEnvironment.call ran a {kind} the {pol} predicate rejects",
+                               f"C18:gate:{kind}:{pol}" + (":immutable" if cls else ""))
         elif real != model:
             ctx.model_mismatch("K-rt SandboxedEnvironment.call", case, model, real, None)
         else:
@@ -811,7 +838,7 @@ def run(ctx):
     # equals is_safe_wcallable / sandbox_call (check event, then invocation) for every argument.  coqc compiles
     # the regenerated files in worker threads while the proof re-check and the streams run; every obligation
     # is compiled on every run and joined (and judged) at the end of run()
-    finish_equations = sbx_src_tie.start_source_equations(ctx, ("call",))
+    finish_equations = sbx_src_tie.start_source_equations(ctx, ("call", "immcall"))   # immcall: the immutable subclass consults the base predicate FIRST
     # regenerated routing decision table of visit_Call / visit_Getattr / visit_Getitem (what C18_calls_gated relies on)
     finish_routes = sbx_src_tie.start_routing_table(ctx)
     ctx.proof("C18")
@@ -854,7 +881,7 @@ def replay(ctx, data):
         judge_render(ctx, envs, {k: case[k] for k in ("kind", "callable", "shape", "policy", "mode", "config", "entry", "place") if k in case})
     elif kind == "gate":
         from jinja2.exceptions import SecurityError
-        env = envs[(case["policy"], "sync")][0]
+        env = envs[(case["policy"], "sync") if not case.get("class") else (case["policy"], "sync", case["class"])][0]
         rec = Rec()
         obj = make_callable(rec, case["callable"], case["unsafe_callable"], case["alters_data"], case["forbidden"])
         try:
